@@ -92,6 +92,41 @@ def run_dec(sx, cfg, env):
     _three(sx, lambda: rq.decode(msg), _same_val)
 
 
+def _same_tree(a, b):
+    """deep equality of two decode results as a formula"""
+    if hasattr(a, "trouble_code") and hasattr(b, "trouble_code"):
+        return a.trouble_code == b.trouble_code
+    if isinstance(a, dict) and isinstance(b, dict):
+        if sorted(a.keys()) != sorted(b.keys()):
+            return False
+        return s_and(*[_same_tree(a[k], b[k]) for k in a]) if a else True
+    if isinstance(a, (list, tuple)) and isinstance(b, (list, tuple)):
+        if len(a) != len(b):
+            return False
+        return s_and(*[_same_tree(x, y) for x, y in zip(a, b)]) if a else True
+    if isinstance(a, (bytes, bytearray)) and isinstance(b, (bytes, bytearray)):
+        return _same_bytes(a, b)
+    if isinstance(a, float) and isinstance(b, float):
+        return cc._feq(a, b)
+    if a is None or b is None:
+        return a is b
+    return a == b
+
+
+def run_compdec(sx, cfg, env):
+    """Request.decode of arbitrary bytes through the nested descriptions, three runs"""
+    import warnings
+    obj = env["obj"]
+    msg = sx.bytes("msg", cfg["mlen"])
+
+    def op():
+        with warnings.catch_warnings():
+            warnings.simplefilter("ignore")
+            return obj.decode(msg)
+
+    _three(sx, op, _same_tree)
+
+
 def build_layer(cfg):
     from harness import c06
     return c06.build_layer(cfg)
@@ -144,9 +179,13 @@ HARNESSES = {
             "must_cover": ["strict-ok", "strict-error", "downgraded"]},
     "dec": {"build": cc.build_atom, "run": run_dec, "width": 80, "limits": LIM,
             "must_cover": ["strict-ok", "strict-error", "downgraded"]},
+    "compdec": {"build": None, "run": run_compdec, "width": 80, "limits": LIM,
+                "must_cover": ["strict-ok", "strict-error"]},
     "layer": {"build": build_layer, "run": run_layer, "width": 80, "limits": LIM,
               "must_cover": ["strict-ok", "strict-error"]},
 }
+from harness import composite as _cp  # noqa: E402
+HARNESSES["compdec"]["build"] = _cp.build_composite
 STUBS = cc.STUBS + ["odxtools.exceptions.strict_mode is flipped by the harness itself (that is the "
                     "operation under test)", "logging of downgraded problems is silenced"]
 
@@ -175,6 +214,11 @@ def configs(tier, seed):
             c.update(harness="dec", id=f"dec/{cc.atom_id(b)}/len{n}", build=b, mlen=n,
                      tail=b.get("tail", True))
             out.append(c)
+    for name in ("table", "table-row-ref", "mux", "dtc", "dynlen-field", "static-field",
+                 "endmarker-field-mid", "length-key", "structure-bytesize", "physconst-reserved"):
+        for n in ((2, 3, 4) if tier == "quick" else range(0, 7)):
+            out.append({"id": f"compdec/{name}/len{n}", "harness": "compdec", "what": "request",
+                        "name": name, "mlen": n, "build": {"what": "request", "name": name}})
     for layer in ("negative-responses", "global-negative"):
         firsts = [0x10, 0x11, 0x50, 0x7F]
         for n in (3,):
